@@ -198,6 +198,7 @@ for t, b, tier, mem in [
     ("auth_data_commit", 5, "thorough", "M"), ("credential", 6, "thorough", "M"), ("hpke_ciphertext", 6, "thorough", "M"),
     ("sender_data_aad", 11, "thorough", "H"), ("message_key_data", 8, "thorough", "X"),
     ("private_content_aad", 12, "thorough", "X"), ("signing_identity", 7, "thorough", "X"),
+    ("capabilities", 7, "thorough", "X"), ("psk_id", 8, "thorough", "X"),
 ]:
     H("c12w_decode_any_" + t, _W, ["C12"], tier, fs="fs_core", mem=mem, unwind=b + 3,
       what=_DA + " (mls-rs wire type)", symbolic="%d symbolic bytes, symbolic length" % b, bounds="B = %d" % b,
